@@ -18,7 +18,7 @@ from .common import *   # noqa: F401,F403
 from pyvc.loops import LoopSpec
 from pyvc.core import Builtin
 from pyvc.values import real_val
-from . import cfg, C02, C16, C08
+from . import reader, cfg, C02, C16, C08
 
 E = 'propka.energy.'
 D = 'propka.determinants.'
@@ -365,6 +365,11 @@ def task_coupled_systems(pr, repo):
         pr.explore(ex, thunk, 'get_coupled_systems ' + layout)
 
 
+def task_centres(pr, repo):
+    from . import C04
+    C04.task_group_centres(pr, repo)
+
+
 def task_boundary_records(pr, repo, tag):
     from . import reader
     reader.explore_steps(pr, repo, reader.check_transition, tags=[tag], names=reader.NAMES, chains_cases=(None,),
@@ -378,10 +383,12 @@ def run(pr, repo):
     cuts += [v[2] for v in list(p.backbone_CO_hydrogen_bond.values()) + list(p.backbone_NH_hydrogen_bond.values())]
     pr.add(Ground('GR: every cut-off of the shipped parameter file is <= 20 A (largest: %s)' % max(cuts), max(cuts) <= 20.0))
     pr.parallel([(task_desolvation, ()), (task_set_determinants, ()), (task_ion_backbone_reorg, ()), (task_smallest, ()),
-                 (task_iterative, ()), (task_probe_far, ()), (C08.task_average_twins, ()), (task_coupled_systems, ())] +
+                 (task_iterative, ()), (task_probe_far, ()), (C08.task_average_twins, ()), (task_coupled_systems, ()),
+                 # a group's centre lies on its own atoms (never at a fixed point such as the origin, where another part may sit)
+                 (task_centres, ())] +
                 # order of the parts in the file: the only state carried from one record to the next is the terminus search, and a
                 # TER record (in whatever layout) re-arms it - the record automaton of C01 for the non-ATOM records
-                [(task_boundary_records, (t,)) for t in ('TER   ', 'MODEL ', 'OTHER')])
+                [(task_boundary_records, (t,)) for t in ['TER   ', 'MODEL ', 'OTHER'] + sorted(reader.TER_SHORT)])
     pr.assumptions += ['iterative solver: "stopping later does not change a converged component" is NOT proved (fixed point of the '
                        'sweep in degenerate ties) - bounded monitor only', 'composition step; A-REAL',
                        'covalent coupling search is bond-based (C11: bonds need distance <= 2.5 A)']
@@ -406,7 +413,22 @@ def bounded(pr):
     def atoms_of(name, chain=None):
         return [l for l in native.pdb_lines(name) if l[:6] in ('ATOM  ', 'HETATM', 'TER   ') and (chain is None or l[21] == chain or l[:3] == 'TER')]
     A = atoms_of('3SGB-subset')
+    # a small set (a fragment of under 150 atoms, first residues of 1HPX chain B incl. the ASP 29 / ARG 87 region is not needed: any
+    # fragment with side chains) together with a big one and with its own renamed copy: sizes on both sides of any size switch
     pairs = [('own copy', A, A)]
+    # small sets (under 200 atoms): the residues around each arginine of 1HPX chain B (its guanidinium hydrogens are the ones whose
+    # placement depends on the order of the bond lists), each with a big far structure and with its own renamed copy
+    chain_b = [l for l in atoms_of('1HPX', 'B') if l[:6] == 'ATOM  ']
+    args = sorted({int(l[22:26]) for l in chain_b if l[17:20] == 'ARG'})
+    for rn in (args if pr.tier == 'thorough' else args[-2:]):
+        cz = [(float(l[30:38]), float(l[38:46]), float(l[46:54])) for l in chain_b if int(l[22:26]) == rn and l[12:16] == ' CZ ']
+        if not cz:
+            continue
+        near = {int(l[22:26]) for l in chain_b
+                if (float(l[30:38]) - cz[0][0]) ** 2 + (float(l[38:46]) - cz[0][1]) ** 2 + (float(l[46:54]) - cz[0][2]) ** 2 < 8.0 ** 2}
+        frag = [l for l in chain_b if int(l[22:26]) in near][:190]
+        frag_c = [(l[:21] + 'D' + l[22:]) for l in frag]
+        pairs += [('residues around ARG %d + structure' % rn, frag, A), ('residues around ARG %d + their renamed copy' % rn, frag, frag_c)]
     if pr.tier == 'thorough':
         pairs.append(('1HPX chain A + 3SGB chain I', atoms_of('1HPX', 'A'), atoms_of('3SGB', 'I')))
     seps = [(90.0, 0), (1200.0, 1), (1200.0, 2)] if pr.tier == 'quick' else [(85.1, 0), (100.0, 1), (999.0, 2), (1001.0, 0), (5000.0, 1), (9000.0, 2)]
